@@ -20,6 +20,7 @@ from __future__ import annotations
 
 import gc
 import itertools
+import time
 from collections import Counter
 
 from vlib import env
@@ -95,9 +96,9 @@ def universe(name):
 
 
 TIERS = {
-    # universe -> history length bound
-    "quick": {"bfs": {"kw5": 3, "kw3": 5, "cls": 3, "vec": 3}, "static": 3, "hier8": 3, "hier5": 4, "text": 2},
-    "thorough": {"bfs": {"kw5": 4, "kw3": 7, "cls": 4, "vec": 4}, "static": 4, "hier8": 4, "hier5": 6, "text": 3},
+    # bfs: universe -> (history length bound with the global hierarchy, with a private hierarchy Var)
+    "quick": {"bfs": {"kw5": (3, 3), "kw3": (5, 5), "cls": (3, 3), "vec": (2, 2)}, "static": 3, "hier8": 2, "hier5": 4, "text": 2},
+    "thorough": {"bfs": {"kw5": (4, 4), "kw3": (7, 7), "cls": (4, 4), "vec": (4, 3)}, "static": 4, "hier8": 4, "hier5": 6, "text": 3},
 }
 
 
@@ -435,7 +436,7 @@ def check_edge(b, uni, hist, res, eq, counters=None):
             exc = b.apply(op)
             if i == last:  # earlier calls were judged when they were the last operation
                 if exc and ("err",) not in {abstract(a) for a in acc}:
-                    res.fail("call-raised", case, exc=exc, reference=sorted(J(a) for a in acc))
+                    res.fail("call-raised", case, exc=exc, reference=sorted(J(a) for a in acc), explained_by=explain(("err", exc), b.table_order(), s[0], s[1], s[2], op[1]))
                 if not exc and all(a[0] == "err" for a in acc):
                     res.fail("call-did-not-raise", case, reference=sorted(J(a) for a in acc))
             s, _ = M.step(s, op)
@@ -475,12 +476,13 @@ def run_bfs_shard(args):
     res = Result()
     eq = {}
     nstate = Counter()
+    t0 = time.process_time()
     for hist in hists:
         for op in uni["ops"]:
             s = check_edge(b, uni, hist + (op,), res, eq)
             res.distinct.add(hash((name, mode, s)))
             nstate[len(hist) + 1] += 1
-    res.part("bfs:%s:%s" % (name, mode), edges_executed=sum(nstate.values()), states_expanded=len(hists), depth_bound=depth)
+    res.part("bfs:%s:%s" % (name, mode), edges_executed=sum(nstate.values()), states_expanded=len(hists), cpu_s=round(time.process_time() - t0, 2))
     if mode == "global":
         b.gvar.bind_root(b.f_make())
     return res.compact(), eq
@@ -519,6 +521,8 @@ def check_static(bs, uni, st, res, eq, orders=None):
     items = [("dm", k) for k in sorted(methods, key=repr)] + [("pf", x, y) for x, y in sorted(prefs, key=repr)]
     answers = {}
     for b in bs:
+        if b.variant and len(methods) < 2:
+            continue  # the iteration order of a table with fewer than two methods cannot matter
         b.var.bind_root(b.f_make())
         for t, p in topo_edges(edges):
             exc = b.apply(("dv", t, p))
@@ -565,11 +569,12 @@ def run_static_shard(args):
     res = Result()
     eq = {}
     orders = {}
+    t0 = time.process_time()
     for st in states:
         check_static(bs, uni, st, res, eq, orders)
         res.distinct.add(hash(("static", name, st)))
     full = sum(1 for v in orders.values() if len(v) == 6)
-    res.part("static:%s" % name, combinations=len(states), three_method_tables=len(orders), tables_seen_in_all_6_orders=full, table_orders_seen=sum(len(v) for v in orders.values()))
+    res.part("static:%s" % name, combinations=len(states), three_method_tables=len(orders), tables_seen_in_all_6_orders=full, table_orders_seen=sum(len(v) for v in orders.values()), cpu_s=round(time.process_time() - t0, 2))
     return res.compact(), eq
 
 
@@ -664,7 +669,7 @@ def check_hier_value(b, uni, h, edges, res, case):
             if x in anc_got and x != y and not (M.is_class(x) and M.is_class(y)) and got != (y in anc_got[x]):
                 res.fail("isa-inconsistent-with-ancestors", case, x=x, y=y, isa=got, ancestors=sorted(map(repr, anc_got[x])))
     # vectors: pointwise
-    vt = tags[:2] + tags[-1:]
+    vt = [tags[0], tags[-1] if M.is_class(tags[-1]) else tags[1]]
     for v1 in itertools.product(vt, repeat=2):
         for v2 in itertools.product(vt, repeat=2):
             got = bool(b.f_isa(h, b.real(v1), b.real(v2)))
@@ -698,6 +703,7 @@ def run_hier_shard(args):
     res = Result()
     found = {}
     local = set()
+    t0 = time.process_time()
     for hist in hists:
         h, edges = replay_hier(b, hist)
         res.transitions += len(hist)
@@ -727,6 +733,7 @@ def run_hier_shard(args):
             local.add(key)
             found[key] = (hist + (op,), e2)
             check_hier_value(b, uni, h2, e2, res, case)
+    res.part("hier:%s" % which, edges_executed=len(hists) * len(uni["ops"]), cpu_s=round(time.process_time() - t0, 2))
     return res.compact(), found
 
 
@@ -864,11 +871,12 @@ def run_text_shard(args):
     uni = universe(name)
     res = Result()
     box = [env.Evaluator(), 0]
+    t0 = time.process_time()
     for hist, mode, default in jobs:
         check_text(hist, mode, default, uni, res, box)
         res.distinct.add(hash(("text", hist, mode, default)))
     env.core_var("global-hierarchy").bind_root(env.core_fn("make-hierarchy")())
-    res.part("text:%s" % name, histories=len(jobs))
+    res.part("text:%s" % name, histories=len(jobs), cpu_s=round(time.process_time() - t0, 2))
     return res.compact(), {}
 
 
@@ -902,23 +910,24 @@ def run(tier, seed):
 
     # bfs + static + text shards, all in one pool
     shards = []
-    for name, depth in cfg["bfs"].items():
+    for name, depths in cfg["bfs"].items():
         uni = universe(name)
-        states = [h for h, _s in bfs_states(uni, depth)]
-        nsh = max(1, min(48, len(states) // 8))
-        for mode in ("global", "private"):
+        for mode, depth in zip(("global", "private"), depths):
+            states = [h for h, _s in bfs_states(uni, depth)]
+            nsh = max(1, min(48, len(states) // 8))
             for i in range(nsh):
                 part = states[(i + seed) % nsh :: nsh]
                 if part:
                     shards.append(("bfs", (name, mode, depth, part)))
-        sdepth = min(cfg["static"], depth)
+            res.part("plan:%s:%s" % (name, mode), canonical_states_expanded=len(states), alphabet=len(uni["ops"]), history_bound=depth)
+        sdepth = cfg["static"]
         st = static_states(uni, sdepth)
         nsh = max(1, min(32, len(st) // 50))
         for i in range(nsh):
             part = st[(i + seed) % nsh :: nsh]
             if part:
                 shards.append(("static", (name, part)))
-        res.part("plan:%s" % name, canonical_states_expanded=len(states), alphabet=len(uni["ops"]), static_combinations=len(st), history_bound=depth)
+        res.part("plan:%s:static" % name, static_combinations=len(st), step_bound=sdepth)
     uni3 = universe("kw3")
     jobs = []
     for h, _s in bfs_states(uni3, cfg["text"] + 1):
